@@ -178,7 +178,9 @@ fn play_events(srv: &mut Srv, rng: &mut Rng, ctxs: &[Scru128Id; 3], n_events: us
             }
             "c-define" => {
                 let n = *rng.pick(&cnames);
-                srv.must_append(&format!("{}.define", n), ctx, Some(command_script(&format!("d{}", ev)).as_bytes()), None, None)?;
+                // some definitions are byte-identical (the same script deployed under two names, in two contexts, or again)
+                let tag = if rng.chance(350) { "same-script".to_string() } else { format!("d{}", ev) };
+                srv.must_append(&format!("{}.define", n), ctx, Some(command_script(&tag).as_bytes()), None, None)?;
             }
             "c-define-bad" => {
                 let n = *rng.pick(&cnames);
